@@ -1,4 +1,5 @@
 import PelModel.TransPeltool
+import PelModel.TransDispatch
 /-
   Vocabulary of the definitions that `harness/trans_dirmodes.py` regenerates from the SOURCE TEXT of the directory modes of
   peltool.py that only READ (lean/PelGen/GenDirModes.lean): `getFileList`, `printPELInHexFormat`, `extractAndSummarizePEL`,
@@ -212,29 +213,65 @@ def pyDeref {α} (o : Option α) : OutM σ α := match o with
   | some a => pure a
   | none => OutM.raise
 
-/-- `d[k]` on the value `parsePELSummary` returned: KeyError for an absent key, TypeError for `""[k]` -/
-def pyGetItem (j : J) (k : Text) : OutM σ J := match j with
-  | .obj l => (match objGet? l k with
-    | some v => pure v
-    | none => OutM.raise)
-  | _ => OutM.raise
+/-- `d[k]` with a string key on a decoded JSON value (`jItem` of PelModel/Pel.lean): KeyError for an absent key, TypeError for
+    `""[k]` -/
+def pyGetItem (j : J) (k : Text) : OutM σ J := match jItem k j with
+  | some v => pure v
+  | none => OutM.raise
 
 /-- a value used where only a `str` does not raise (`x in <str>`, `int(x, 16)`) -/
 def pyAsStr (j : J) : OutM σ Text := match j with
   | .str t => pure t
   | _ => OutM.raise
 
-/-- `needle in x` for a string `needle`: substring of a string, key of a dictionary, element of a list; TypeError otherwise -/
-def pyStrIn (needle : Text) (x : J) : OutM σ Bool := match x with
-  | .str t => pure (isInfix needle t)
-  | .obj l => pure (l.any (fun p => p.1 == needle))
-  | .arr l => pure (l.any (fun v => match v with | .str t => t == needle | _ => false))
-  | _ => OutM.raise
+/-- `needle in x` for a string `needle` (`jIn` of PelModel/Pel.lean): key of a dictionary, substring of a string, element of a
+    list; TypeError otherwise -/
+def pyStrIn (needle : Text) (x : J) : OutM σ Bool := match jIn needle x with
+  | some b => pure b
+  | none => OutM.raise
 
 /-- `int(t, 16)` on the texts `[0x|0X]<hex digits>+` (exact there); any other text is taken as a ValueError.  (Python also accepts
     surrounding blanks, a sign and single underscores; the summary's `PLID` member is always `0x%08X`.) -/
 def pyIntHex (t : Text) : OutM σ Nat :=
   let d := if (s "0x").isPrefixOf t || (s "0X").isPrefixOf t then t.drop 2 else t
   if d ≠ [] ∧ d.all isHexDigit then pure (parseHexText d) else OutM.raise
+
+/-! ### `parsePELSummary`: the stream is one of the mutable locals (it is read inside a loop) -/
+
+/-- a reader step on the stream object kept in the mutable locals (`get` / `set`: where): the value, the stream moves on; the
+    reader's exception is raised -/
+def pyRdL {α} (r : Rd α) (get : σ → Bytes) (set : σ → Bytes → σ) : OutM σ α := fun st =>
+  match r (get st.loc) with
+  | .ok (a, b) => (.ok a, { st with loc := set st.loc b })
+  | .error _ => (.exc, st)
+
+/-- `generatePH(stream, out)` with what it stores in `out` (under `getSectionName(<the id>)`): `none` = `(False, None)` -/
+def generatePHRdJ (env : Env) : Rd (Option (J × PHInfo)) := do
+  let h ← parseHeader
+  if h.id ≠ sidPH then pure none else do
+  let r ← decodePH env.T h
+  pure (some r)
+
+/-- `generateUH(stream, creatorID, out)` with what it stores in `out` -/
+def generateUHRdJ (env : Env) (creator : Text) : Rd (Option (J × UHInfo)) := do
+  let h ← parseHeader
+  if h.id ≠ sidUH then pure none else do
+  let r ← decodeUH env.T h creator
+  pure (some r)
+
+/-- a function that only computes and reads its stream (`parsePELSummary`): what it returns or raises, and what it wrote (nothing) -/
+def OutM.result {σ ρ} (init : σ) (body : OutM σ (Ctl ρ)) : PyRes ρ × Text × Nat :=
+  match body { loc := init, out := [], errs := 0 } with
+  | (.ok (.ret r), st) => (.ok r, st.out, st.errs)
+  | (.ok _, st) => (.exc, st.out, st.errs)
+  | (.exc, st) => (.exc, st.out, st.errs)
+  | (.exit n, st) => (.exit n, st.out, st.errs)
+
+/-- what `parsePELSummary` hands back for the model's outcome: `(eid, summary)`, `("", "")`, or the exception -/
+def summaryResult : SummaryOutcome → PyRes (Text × J)
+  | .summary sm _ _ => .ok (sm.eid, .obj sm.fields)
+  | .filtered => .ok ([], .str [])
+  | .badHeader => .ok ([], .str [])
+  | .error _ => .exc
 
 end Pel
